@@ -2,7 +2,7 @@
    This file holds only the property theorems, each closed by `exact <lemma>`, with
    Print Assumptions beneath, and non-vacuity examples.
    Model: C12/Model.v (tied to distsys/resources/{gcounter,aworset,lww}.go by ./check C12). *)
-From PGV Require Import C12.Model C12.ProofsAL C12.ProofsGC C12.ProofsSys C12.ProofsGCHist C12.ProofsLWW C12.ProofsAW C12.ProofsConv C12.ProofsSysX C12.ProofsAWSeq.
+From PGV Require Import C12.Model C12.ProofsAL C12.ProofsGC C12.ProofsSys C12.ProofsGCHist C12.ProofsLWW C12.ProofsAW C12.ProofsConv C12.ProofsSysX C12.ProofsAWSeq C12.ProofsAWRO.
 From Coq Require Import Lia.
 Open Scope Z_scope.
 
@@ -375,4 +375,59 @@ Proof.
   all: intros [ry ky ay] [s Hs] He; unfold elem_of in He; cbn [ev_arg ev_rep ev_seq snd] in *.
   all: destruct ry as [|[p|p|]|p]; vm_compute in Hs; destruct ky as [|[|[|ky]]]; try discriminate Hs;
        inversion Hs; subst; cbn in He; try lia; vm_compute; tauto.
+Qed.
+
+(* ================================================================ AWORSet, the widest class proved: removes ordered, adds may be concurrent *)
+(* aw_removes_ordered ops: whenever a replica updates element e, every REMOVE of e performed so far by any
+   replica has been delivered to it, and if the update is itself a remove, every update of e performed so
+   far has been delivered to it. Adds of the same element may be concurrent with each other. (The known
+   finding needs an add concurrent with a remove of the same element; remove concurrent with remove is the
+   only remaining case not covered by a theorem — the oracle treats a failure there as a violation.)
+   `inA log D e a`: a is a delivered add of e whose clock is above the clock of every delivered remove of e,
+   i.e. an add not observed by any delivered remove. *)
+Theorem aworset_convergence_partial_wide : forall ops r1 r2, aw_removes_ordered ops ->
+  same_updates (aw_delivered ops r1) (aw_delivered ops r2) ->
+  forall e, In e (aw_read (reps (aw_run ops) r1)) <-> In e (aw_read (reps (aw_run ops) r2)).
+Proof. intros ops r1 r2 H1 H2. exact (proj2 (aw_ro_convergence ops r1 r2 H1 H2)). Qed.
+Print Assumptions aworset_convergence_partial_wide.
+
+Theorem aworset_read_partial_wide : forall ops r e, aw_removes_ordered ops ->
+  (In e (aw_read (reps (aw_run ops) r)) <->
+   exists a, inA (g_log (snd (aw_xrun ops))) (aw_delivered ops r) e a).
+Proof. intros ops r e H. exact (aw_ro_read ops r e H). Qed.
+Print Assumptions aworset_read_partial_wide.
+
+Theorem aworset_sequential_is_removes_ordered : forall ops, aw_sequential ops -> aw_removes_ordered ops.
+Proof. exact aw_sequential_removes_ordered. Qed.
+Print Assumptions aworset_sequential_is_removes_ordered.
+
+(* non-vacuity: replicas 0 and 1 add element 7 CONCURRENTLY; replica 2 receives both and removes 7; replica 3
+   receives everything in another order. The history is in the class (not in aw_sequential) and both read {} *)
+Definition aw_ro_example : list aw_op :=
+  [OWrite 0 (1, 7); OWrite 1 (1, 7); OSnap 0 true; OSnap 1 false; ODeliver 2 0%nat; ODeliver 2 1%nat;
+   ODeliver 3 1%nat; ODeliver 3 0%nat; OWrite 2 (2, 7); OSnap 2 false; ODeliver 3 2%nat].
+
+Example aworset_removes_ordered_nonvacuous :
+  aw_removes_ordered aw_ro_example /\ ~ aw_sequential aw_ro_example /\
+  aw_read (reps (aw_run (firstn 8 aw_ro_example)) 3) = [7] /\
+  aw_read (reps (aw_run aw_ro_example) 2) = [] /\ aw_read (reps (aw_run aw_ro_example) 3) = [].
+Proof.
+  split; [|split; [|split; [|split]; vm_compute; reflexivity]].
+  - unfold aw_removes_ordered, aw_ro_example.
+    change [OWrite 0 (1, 7); OWrite 1 (1, 7); OSnap 0 true; OSnap 1 false; ODeliver 2 0%nat; ODeliver 2 1%nat;
+            ODeliver 3 1%nat; ODeliver 3 0%nat; OWrite 2 (2, 7); OSnap 2 false; ODeliver 3 2%nat]
+      with (((((((((((([] : list aw_op) ++ [OWrite 0 (1, 7)]) ++ [OWrite 1 (1, 7)]) ++ [OSnap 0 true]) ++ [OSnap 1 false]) ++ [ODeliver 2 0%nat]) ++ [ODeliver 2 1%nat]) ++
+            [ODeliver 3 1%nat]) ++ [ODeliver 3 0%nat]) ++ [OWrite 2 (2, 7)]) ++ [OSnap 2 false]) ++ [ODeliver 3 2%nat]).
+    repeat (apply validx_snoc_intro); try apply validx_nil; intros r a E; inversion E; subst; clear E.
+    all: split; [vm_compute; reflexivity|]; split; [cbn; tauto|]; split;
+      [ intros [ry ky ay] [s Hs] He Hcy | intros Hc [ry ky ay] [s Hs] He; cbn in Hc; unfold remOp in Hc; try discriminate Hc ];
+      unfold elem_of, cmd_of in *; cbn [ev_arg ev_rep ev_seq fst snd] in *;
+      (destruct ry as [|[p|p|]|p]; vm_compute in Hs; destruct ky as [|[|[|ky]]]; try discriminate Hs;
+       inversion Hs; subst; cbn in *; try discriminate; try lia; vm_compute; tauto).
+  - (* the second add is performed without the first one having been delivered *)
+    intros H. specialize (H [OWrite 0 (1, 7)] 1 (1, 7) [OSnap 0 true; OSnap 1 false; ODeliver 2 0%nat; ODeliver 2 1%nat;
+            ODeliver 3 1%nat; ODeliver 3 0%nat; OWrite 2 (2, 7); OSnap 2 false; ODeliver 3 2%nat] eq_refl).
+    destruct H as (_ & _ & H). specialize (H (mkEv 0 0%nat (1, 7))).
+    assert (Hl : logged (g_log (snd (aw_xrun [OWrite 0 (1, 7)]))) (mkEv 0 0%nat (1, 7))) by (eexists; vm_compute; reflexivity).
+    specialize (H Hl eq_refl). vm_compute in H. exact H.
 Qed.
